@@ -45,18 +45,18 @@ type scope struct {
 }
 
 type fctx struct {
-	isFn    bool // return allowed
-	isGen   bool
-	isAsync bool
-	isArrow bool
-	method  bool // this is an object
-	derived bool // super.m() allowed
-	strict  bool
-	args    bool // `arguments` usable
-	loop    int
-	sw      int
-	labels  []string // labels of enclosing labelled statements (break targets)
-	loopLbl []string // labels of enclosing labelled loops (continue targets)
+	isFn      bool // return allowed
+	isGen     bool
+	isAsync   bool
+	isArrow   bool
+	method    bool // this is an object
+	derived   bool // super.m() allowed
+	strict    bool
+	args      bool // `arguments` usable
+	loop      int
+	sw        int
+	labels    []string // labels of enclosing labelled statements (break targets)
+	loopLbl   []string // labels of enclosing labelled loops (continue targets)
 	inFinally int
 }
 
@@ -78,35 +78,35 @@ type gen struct {
 }
 
 type ex struct {
-	s    string
-	p    int
-	coal bool // top-level ?? (cannot be mixed with || && without parentheses)
-	lor  bool // top-level || or &&
-	opt  bool // optional chain at member level: must not be wrapped and continued
-	call bool // contains a call at member level (cannot be a `new` callee without parens)
-	num  bool // plain decimal integer literal (needs care before '.')
+	s      string
+	p      int
+	coal   bool // top-level ?? (cannot be mixed with || && without parentheses)
+	lor    bool // top-level || or &&
+	opt    bool // optional chain at member level: must not be wrapped and continued
+	call   bool // contains a call at member level (cannot be a `new` callee without parens)
+	num    bool // plain decimal integer literal (needs care before '.')
 	numlit bool // any numeric literal
 }
 
 const (
-	pComma = 1
-	pAssign = 2
-	pCond  = 3
-	pOr    = 5
-	pAnd   = 6
-	pBitOr = 7
-	pBitXor = 8
-	pBitAnd = 9
-	pEq    = 10
-	pRel   = 11
-	pShift = 12
-	pAdd   = 13
-	pMul   = 14
-	pExp   = 15
-	pUnary = 16
+	pComma   = 1
+	pAssign  = 2
+	pCond    = 3
+	pOr      = 5
+	pAnd     = 6
+	pBitOr   = 7
+	pBitXor  = 8
+	pBitAnd  = 9
+	pEq      = 10
+	pRel     = 11
+	pShift   = 12
+	pAdd     = 13
+	pMul     = 14
+	pExp     = 15
+	pUnary   = 16
 	pPostfix = 17
-	pNew   = 18
-	pCall  = 19
+	pNew     = 18
+	pCall    = 19
 	pPrimary = 20
 )
 
